@@ -808,6 +808,9 @@ package cdi
 //@   assert[only C02.IntelRdt] at call of Apply: cast(RdtOf(edits), int) == rdtIn[len(devices)] && rdtIn[0] == 0 &&
 //@                        forall(k, 1 <= k && k <= len(devices), trig(rdtIn[k], rdtIn[k] == rdtOut[k-1])) &&
 //@                        forall(k, 0 <= k && k < len(devices), trig(dv[k], rdtOut[k] == RdtStep(dv, fst, rdtIn, k)))
+//@   ghostvar applyCalls int = 0
+//@   ghost at before call of Apply: applyCalls = applyCalls + 1
+//@   assert[only C02.Order] at return: applyCalls <= 1 && implies(err == nil, applyCalls == 1)
 //@   assert[only C02.Order] at call of Apply: forall(k, 0 <= k && k < len(devices), trig(dv[k], DvAt(dv, k) != nil && DvAt(dv, k) == c.devices[devices[k]] && iff(fst[k], FirstOfSpec(dv, k))))
 //@   assert[only C02] at call of Apply: #arg0 == edits && #arg1 == ociSpec
 
@@ -1192,15 +1195,27 @@ package cdi
 //@   requires c != nil && CacheInit(c)
 //@   ghostwrites maxP, cnt, first, scanMark
 //@   ensures[C01] r == c.devices[device]
+// C01: the listings are the keys of the index maps (every key once or more, nothing else), in sort.Strings order;
+// the Specs of a vendor are the index entry of that vendor.
+//@ pred Lists(r []string, n int, k string) = exists(i, 0 <= i && i < n, r[i] == k)
 //@ func (c *Cache) ListDevices() (r []string)
 //@   requires c != nil && CacheInit(c)
 //@   ghostwrites maxP, cnt, first, scanMark
+//@   ensures[C01] forall(k, string, true, iff(has(c.devices, k), Lists(r, len(r), k)))
+//@   loop 1 invariant base(devices) == 0 || fresh(devices)
+//@   loop 1 invariant forall(k, string, true, iff(has(#seen, k), Lists(devices, len(devices), k)))
+//@   loop 1 invariant forall(k, string, has(#seen, k), has(c.devices, k))
 //@ func (c *Cache) ListVendors() (r []string)
 //@   requires c != nil && CacheInit(c)
 //@   ghostwrites maxP, cnt, first, scanMark
+//@   ensures[C01] forall(k, string, true, iff(has(c.specs, k), Lists(r, len(r), k)))
+//@   loop 1 invariant base(vendors) == 0 || fresh(vendors)
+//@   loop 1 invariant forall(k, string, true, iff(has(#seen, k), Lists(vendors, len(vendors), k)))
+//@   loop 1 invariant forall(k, string, has(#seen, k), has(c.specs, k))
 //@ func (c *Cache) GetVendorSpecs(vendor string) (r []*Spec)
 //@   requires c != nil && CacheInit(c)
 //@   ghostwrites maxP, cnt, first, scanMark
+//@   ensures[C01] r == c.specs[vendor]
 //@ func (c *Cache) Configure(options []Option) (err error)
 //@   requires c != nil && CacheRep(c) && OptionsOK(options)
 //@ func (c *Cache) WriteSpec(raw *cdi.Spec, name string) (err error)
